@@ -161,6 +161,24 @@ def derived_oracle(kind, seed):
     return reader_compare(doc, hist)
 
 
+def root_oracle(seed):
+    from props import c03
+    r = random.Random('c06root/%s' % seed)
+    hist = []
+
+    def empty_some(doc):
+        for lib in ('lights', 'cameras', 'images', 'effects', 'geometries', 'nodes'):
+            if len(getattr(doc, lib)) and r.random() < 0.4:
+                del getattr(doc, lib)[:]
+                hist.append('clear:' + lib)
+    try:
+        doc, kids = c03.root_case(r, after_load=empty_some, want_doc=True)
+    except Exception as e:
+        core.note_skip('c06:root-doc', e)
+        return None
+    return reader_compare(doc, ['root: ' + ' '.join(kids)] + hist)
+
+
 def reader_compare(doc, hist):
     expected = snap.snapshot(doc, norm7=True, errors=False, derive_matrix=True)
     b = io.BytesIO()
@@ -260,6 +278,16 @@ def run(ctx):
         if res and res[0] not in reported:
             reported.add(res[0])
             ctx.violation('c06:' + res[0], res[1], dict(kind='reader', base=kind, seed=seed, nops=nops, kinds=VALUE_KINDS))
+    # documents whose root holds several library elements of one kind (and unmanaged ones, extras ...), with some lists emptied after loading
+    from props import c03
+    for i in range(ctx.n(120, 3000)):
+        seed = ctx.rng.randrange(10 ** 9)
+        ctx.case(dict(base='root', seed=seed))
+        ctx.count('reader:roots')
+        res = root_oracle(seed)
+        if res and res[0] not in reported:
+            reported.add(res[0])
+            ctx.violation('c06:' + res[0], res[1], dict(kind='root', seed=seed))
     nd = 0
     for i in range(ctx.n(120, 3000)):
         kind = 'constructed' if i % 2 == 0 else 'reloaded'
@@ -281,6 +309,11 @@ def run(ctx):
 def replay(ctx, rep):
     if rep.get('kind') == 'reader':
         res = reader_oracle(rep['base'], rep['seed'], rep['nops'], rep.get('kinds'))
+        if res:
+            print('  ' + res[1])
+        return res is not None
+    if rep.get('kind') == 'root':
+        res = root_oracle(rep['seed'])
         if res:
             print('  ' + res[1])
         return res is not None
